@@ -225,6 +225,21 @@ def fit(name, data, init=None, num_classes=None, iterations=3, trainer=None, **o
             pass
         finally:
             IN_WARMUP[0] = False
+        # ... and before that on a recording with another number of channels / features (whether the trainer refuses it
+        # with an explicit exception or not, it must not influence the fit that follows)
+        try:
+            IN_WARMUP[0] = True
+            wide = {k: np.concatenate([v, v[..., :1]], axis=-1) for k, v in bufs.items()}
+            kw0 = dict(opts)
+            kw0['initialization'] = ibuf
+            if name in INTEGRATION:
+                T.fit(wide['observation'], wide['embedding'], iterations=1, **kw0)
+            else:
+                T.fit(wide['y'], iterations=1, **kw0)
+        except Exception:
+            pass
+        finally:
+            IN_WARMUP[0] = False
         for k in bufs:
             bufs[k][...] = data[k]
         ibuf[...] = init
